@@ -264,7 +264,10 @@ class World:
         if n == 0:
             # nullary: each call may differ (factories): index by call count - counted separately for the real code and
             # for the spec, so that the k-th call of either side is the same event
-            k = sum(1 for e in self.events if e[0] == "cb" and e[1] == name and e[3] == side)
+            # (a counter of its own: the event log is cleared at the beginning of every step, the call count must go on)
+            cnt = self.__dict__.setdefault("nullary_calls", {})
+            cnt[(name, side)] = cnt.get((name, side), 0) + 1
+            k = cnt[(name, side)]
             idx = z3.IntVal(k)
             f = z3.Function(f"{name}/k", z3.IntSort(), smt.Val)
             fr = z3.Function(f"{name}_raises/k", z3.IntSort(), z3.BoolSort())
